@@ -315,6 +315,29 @@ def check_equality(ctx, case):
             probs.append('empty slice accepted')
         except IndexError:
             pass
+        # slices of a pulse that has been used (times read, something cached): exactly the selected
+        # sub-sequence — its own times and duration, equal to the pulse built from the sliced
+        # Hamiltonian, equal results
+        U = gens.build(desc)
+        wsl = np.linspace(0.1, 4, 6)
+        for use in range(int(rng.integers(1, 4))):
+            [lambda: U.t, lambda: U.get_filter_function(wsl), lambda: U.tau, lambda: U.diagonalize(),
+             lambda: U.propagator_at_arb_t(np.array([0.3*float(np.sum(desc['dt']))]))][int(rng.integers(0, 5))]()
+        us = U[a:b]
+        dsl = dict(desc)
+        dsl['c_coeffs'] = np.asarray(desc['c_coeffs'])[:, a:b]
+        dsl['n_coeffs'] = np.asarray(desc['n_coeffs'])[:, a:b]
+        dsl['dt'] = np.asarray(desc['dt'])[a:b]
+        fresh = gens.build(dsl)
+        tt = np.concatenate(([0.0], np.cumsum(dsl['dt'])))
+        if not (len(us) == b - a and np.shape(us.t) == tt.shape and np.allclose(us.t, tt, rtol=1e-13, atol=0)
+                and np.isclose(us.tau, tt[-1], rtol=1e-13) and np.isclose(us.duration, tt[-1], rtol=1e-13)):
+            probs.append('slice of a used pulse reports times / duration that are not its own')
+        if not (us == fresh) or not (fresh == us):
+            probs.append('slice of a used pulse differs from the pulse built from the sliced Hamiltonian')
+        elif not np.allclose(us.get_filter_function(wsl), fresh.get_filter_function(wsl), rtol=1e-9,
+                             atol=1e-12):
+            probs.append('slice of a used pulse has another filter function than the sliced pulse')
     # deep copy
     D = copy.deepcopy(A)
     A.cache_filter_function(np.linspace(0.1, 3, 5))
